@@ -43,6 +43,7 @@ HELPER_OBLIGATIONS = ['C14.helper_add_agrees', 'C14.helper_sub_agrees', 'C14.hel
 
 T1_CLASSES = ['AddCarryIn', 'Sub', 'SignExtend', 'Mul', 'Range', 'Bit', 'Constant', 'Not', 'And2', 'Buf', 'BitsLSBF']
 
+FINDING_CLASSES = ('mult-wide-result', 'mult-negative-low')
 BLOCKS = ('FixedPointAdd', 'FixedPointSub', 'FixedPointMult', 'FixedPointSign', 'FixedPointComparator')
 
 
@@ -261,9 +262,15 @@ class Batch:
             model, spec, lcls = parts
             gtnone = blk == 'FixedPointComparator' and len(p) > 11 and p[11] == 1
             info = dict(block=blk, params=list(p), inputs=list(x), observed=obs if cerr is None else 'raises: ' + cerr)
+            # inside a finding class the model reproduces the DEFECT; if the implementation now agrees with the specification
+            # there (the defect got fixed) that is not a disagreement to report: the check must keep passing
+            repaired = cls in FINDING_CLASSES and cerr is None and (x == () or (not isinstance(obs, str) and obs == exp))
             if x == ():
                 if (cerr is not None) != (model == '!'):
-                    res.disagree('blocks', dict(info, model=model, what='constructor accept/raise differs'))
+                    if repaired and model == '!':
+                        res.hist('classes', f'{blk}:{cls}(now accepted by the implementation: fixed?)')
+                    else:
+                        res.disagree('blocks', dict(info, model=model, what='constructor accept/raise differs'))
                 continue
             res.cov['disagreements_checked'] += 1
             if model != '!':
@@ -272,7 +279,10 @@ class Batch:
                 if gtnone and not isinstance(obs, str):
                     mv, ov = mv[1:], obs[1:]
                 if isinstance(obs, str) or mv != ov:
-                    res.disagree('blocks', dict(info, model=mv, what='model output differs from implementation'))
+                    if repaired:
+                        res.hist('classes', f'{blk}:{cls}(implementation agrees with the specification, model does not: fixed?)')
+                    else:
+                        res.disagree('blocks', dict(info, model=mv, what='model output differs from implementation'))
             # one specification, two evaluators
             if dom:
                 sv = [int(v) for v in spec.split(',') if v != '']
